@@ -18,6 +18,19 @@ Definition tlwe_mulByXaiMinusOne (a:Z) (s : tsample) : option tsample := all_som
 Definition tlwe_clear (k N : nat) : tsample := repeat (repeat 0 N) (S k).
 Definition tlwe_trivial (k : nat) (mu : list Z) : tsample := repeat (repeat 0 (length mu)) k ++ [mu].
 
+(* tLweCopy, tLweAddTTo (coefficient 0 of component pos += x), tLweAddRTTo (component pos += p * x, p an integer polynomial) *)
+Definition tlwe_copy (c : tsample) : tsample := c.
+Fixpoint upd_at {A} (n:nat) (f : A -> A) (l : list A) : list A :=
+  match n, l with
+  | _, [] => []
+  | O, x :: r => f x :: r
+  | S n', x :: r => x :: upd_at n' f r
+  end.
+Definition bump0 (x : Z) (a : list Z) : list Z := match a with y :: r => w32 (y + x) :: r | [] => [] end.
+Definition tlwe_add_t (c : tsample) (pos : nat) (x : Z) : tsample := upd_at pos (bump0 x) c.
+Definition tlwe_add_rt (c : tsample) (pos : nat) (p : list Z) (x : Z) : tsample :=
+  upd_at pos (fun a => zipw (fun y q => y + w32 (q * x)) a p) c.
+
 (* tLwePhase: phase = b; for i<k: phase -= key_i * a_i  (exact ring arithmetic) *)
 Fixpoint tlwe_phase_aux (key : list (list Z)) (mask : list (list Z)) (acc : list Z) : list Z :=
   match key, mask with
@@ -60,7 +73,9 @@ Fixpoint chunks (fuel:nat) (n:nat) (v:list Z) : list (list Z) :=
 Definition osample (o : option sample) : list Z := match o with Some (a, b) => a ++ [b] | None => [-1; -1; -1] end.
 Definition otsample (o : option tsample) : list Z := match o with Some s => concat s | None => [-1; -1; -1] end.
 (* args: opcode k N p  c1((k+1)N) c2((k+1)N) : 0 add 1 sub 2 addmul 3 submul 4 (X^p-1)*c1 5 extract index p of c1
-         6 phase of c1 under key (key = first k polys of c2) 7 extracted key of (k polys of c2) *)
+         6 phase of c1 under key (key = first k polys of c2) 7 extracted key of (k polys of c2)
+         20 clear 21 copy c1 22 trivial sample of the body of c2 23/24 tLweAddTTo at the body / at mask 0 with x = p
+         25/26 tLweAddRTTo at the body / at mask 0 with the first polynomial of c2 as integer polynomial and x = p *)
 Definition entry_tlwe (v : list Z) : list Z :=
   match v with
   | opc :: k :: n :: p :: r =>
@@ -74,6 +89,13 @@ Definition entry_tlwe (v : list Z) : list Z :=
     else if opc =? 15 then (let e := tlwe_extract_exec n c1 (Z.to_nat p) in fst e ++ [snd e])
     else if opc =? 6 then tlwe_phase (firstn k c2) c1
     else if opc =? 7 then tlwe_extract_key (firstn k c2)
+    else if opc =? 20 then concat (tlwe_clear k n)
+    else if opc =? 21 then concat (tlwe_copy c1)
+    else if opc =? 22 then concat (tlwe_trivial k (last c2 []))
+    else if opc =? 23 then concat (tlwe_add_t c1 k p)
+    else if opc =? 24 then concat (tlwe_add_t c1 0 p)
+    else if opc =? 25 then concat (tlwe_add_rt c1 k (hd [] c2) p)
+    else if opc =? 26 then concat (tlwe_add_rt c1 0 (hd [] c2) p)
     else []
   | _ => []
   end.
